@@ -26,10 +26,10 @@ ID = "C10"
 COQ_IMPORTS = "From FV Require Import Base Spill."
 COQ_CHECK = "c10_check"
 COQ_MODEL_OBS = "c10_model"
-CASE_TIMEOUT = 120
+CASE_TIMEOUT = 30
 RULE = (
     "real compositions: generator (step s) -> 1-3 consumers (steps c_i), each direct or behind "
-    "NextTime/PreviousTime/LinearTime/StepTime(step)/AvgOverTime/SumOverTime; payload scalar / grid array / "
+    "NextTime/PreviousTime/LinearTime/StepTime(step)/AvgOverTime/SumOverTime(per_time True|False); payload scalar / grid array / "
     "masked array (fixed or flexible mask); slot_memory_limit in {None, -1, 0, k*nbytes, k*nbytes+-1 (k = 0..history), "
     "huge}, optionally overridden per slot; non-trivial = some slot holds at least one spilled and at least one "
     "in-RAM entry during the run (or, for limit 0 / None sweeps, at least one spill resp. none); distinct by "
@@ -140,7 +140,7 @@ CORPUS = _corpus()
 
 
 def generate(rng, tier):
-    ncomp = 60 if tier == "quick" else 900
+    ncomp = 130 if tier == "quick" else 900
     cases = list(CORPUS)
     # every slot kind x payload kind x {0, one payload, None}: the systematic part
     for kind in KINDS:
@@ -279,6 +279,7 @@ def _run_once(case, limit, loc, instrument):
     events = [[] for _ in slots]
     delivered = [[] for _ in slots]
     roundtrip_bad = []
+    nround = [0]
     keep = []  # keeps packed objects alive (no id() reuse)
 
     def files_of(slot):
@@ -331,6 +332,7 @@ def _run_once(case, limit, loc, instrument):
             if isinstance(where, str):
                 idx = by_file.get(os.path.basename(where), 4999)
                 o = orig.get(os.path.basename(where))
+                nround[0] += 1
                 try:
                     if o is None or not _same_payload(o[0], r.magnitude) or str(r.units) != o[1]:
                         roundtrip_bad.append(["roundtrip", si, idx])
@@ -404,6 +406,7 @@ def _run_once(case, limit, loc, instrument):
             "limits": [s.memory_limit for s in slots],
             "events": events,
             "bad": roundtrip_bad,
+            "roundtrips": nround[0],
             "left": len(_listing(loc)),
             "foreign": [fn for fn in _listing(loc) if not (fn.startswith(known) and fn.endswith(".npy"))][:5],
         })
@@ -609,6 +612,21 @@ def distribution(cases, obss):
                     pulls[ev[3][0] if ev[3][0] == "ok" else ev[3][1]] += 1
     return {"consumer_kinds": dict(kinds), "payloads": dict(pay), "limits": dict(lims),
             "runs_with_mixed_buffer": mixed, "runs_with_spill": spilled, "slot_pulls": dict(pulls)}
+
+
+def extra_evidence(cases, obss):
+    from collections import Counter
+
+    rt = Counter()
+    for c, o in zip(cases, obss):
+        if "lim" in o:
+            rt[c["payload"]] += o["lim"].get("roundtrips", 0)
+    return {
+        "load_save_roundtrips_checked_per_payload_kind": dict(rt),
+        "reference_runs_failed": sum(1 for o in obss if "ref" in o and o["ref"]["error"] is not None),
+        "partial": "real OS/file-system faults, id() reuse between slots of different lifetimes and the pickle format are "
+                   "outside the model; the numeric combination of the unpacked payloads is the business of C08/C11/C12",
+    }
 
 
 def shrink_candidates(case):
